@@ -9,15 +9,21 @@ VARIABLE l
 
 Log == ndJsonDeserialize("trace.ndjson")
 
-TraceInit == Init /\ l = 1
+\* Any instance will do: the first log line resets it (Init itself ranges over PresFor, which is
+\* not enumerable with the bounds of Trace.cfg).
+TraceInit == (\E c \in Bases : InitC(WithPre(c, NoPre))) /\ l = 1
 
+\* The primed copy of InitC: a fresh channel or a runtime loaded from the logged store.
 Reset0 ==
-  /\ cfg' = [store |-> Log[l].ev.cfg.store, isr |-> {Log[l].ev.cfg.isr[i] : i \in DOMAIN Log[l].ev.cfg.isr},
-             minISR |-> Log[l].ev.cfg.minISR]
-  /\ present' = {} /\ bar' = {}
-  /\ leo' = 0 /\ lprog' = 0 /\ hw' = 0 /\ ckpt' = 0
+  LET c == Log[l].ev.cfg
+      p == [n |-> c.pre.n, c |-> c.pre.c, b |-> c.pre.b, k |-> c.pre.k]
+  IN
+  /\ p.b <= p.c /\ p.c <= p.n /\ p.k <= p.n /\ (c.minISR <= 1 => p.c = p.n)
+  /\ cfg' = [store |-> c.store, isr |-> {c.isr[i] : i \in DOMAIN c.isr}, minISR |-> c.minISR, pre |-> p]
+  /\ present' = 1..p.n /\ bar' = {p.k} \ {0}
+  /\ leo' = p.n /\ lprog' = p.n /\ hw' = p.c /\ ckpt' = p.c
   /\ match' = [f \in Followers |-> 0]
-  /\ ret' = 0 /\ metaRet' = 0 /\ local' = 0 /\ phys' = 0
+  /\ ret' = p.b /\ metaRet' = p.b /\ local' = p.b /\ phys' = 0
   /\ ev' = Log[l].ev
 
 Step(e) ==
@@ -27,9 +33,12 @@ Step(e) ==
     [] e.a = "Meta"   -> Meta(e.r)
     [] e.a = "Apply"  -> Apply(e.b, e.mt)
     [] e.a = "Read"   -> IF e.layer = "store" THEN ReadStore(e.from, e.lim, e.rev)
+                         ELSE IF e.layer = "fwd" THEN ReadFwd(e.from, e.mx, e.lim, e.rev, e.miss, e.oret)
                          ELSE ReadSvc(e.from, e.mx, e.lim, e.rev)
     [] e.a = "Sync"   -> Sync(e.mode, e.start, e.end, e.lim)
+    [] e.a = "SyncF"  -> SyncFwd(e.mode, e.start, e.end, e.lim, e.miss, e.oret)
     [] e.a = "Head"   -> HeadMsg
+    [] e.a = "HeadF"  -> HeadFwd(e.miss, e.oret, e.batch)
     [] e.a = "Last"   -> LastVis(e.after)
 
 TraceNext == l <= Len(Log) /\ l' = l + 1 /\ Step(Log[l].ev)
